@@ -481,6 +481,9 @@ func genCrash(t *rapid.T) *crashCase {
 		c.Before = append(c.Before, Op{Name: rapid.SampledFrom(names).Draw(t, "bname"), Params: genValidParams(t)})
 	}
 	c.Save = Op{Name: rapid.SampledFrom(names).Draw(t, "name"), Params: genValidParams(t)}
+	if n > 0 && rapid.Bool().Draw(t, "overwrite") {
+		c.Save.Name = c.Before[0].Name // replace an existing configuration
+	}
 	c.Sample = rapid.SliceOfN(rapid.IntRange(0, 4000), 6, 6).Draw(t, "positions")
 	return c
 }
@@ -542,7 +545,7 @@ func checkCrash(c *crashCase, o *vk.Obs) []string {
 		}
 	}
 	var positions []int
-	if len(newb) <= 600 {
+	if len(newb) <= 320 {
 		for k := 0; k < len(newb); k++ {
 			positions = append(positions, k)
 		}
@@ -550,6 +553,9 @@ func checkCrash(c *crashCase, o *vk.Obs) []string {
 	} else {
 		for _, s := range c.Sample {
 			positions = append(positions, s%len(newb))
+		}
+		for k := 0; k < len(newb); k += len(newb)/24 + 1 {
+			positions = append(positions, k)
 		}
 		positions = append(positions, 0, 1, len(newb)-1, len(old))
 	}
@@ -580,8 +586,8 @@ func checkCrash(c *crashCase, o *vk.Obs) []string {
 }
 
 func TestPropCrash(t *testing.T) {
-	vk.Main(t, vk.Spec[crashCase]{ID: "C19", Facet: "crash", Quick: 12, Thorough: 100, Gen: genCrash, Check: checkCrash,
-		Rule: "for a generated previous settings file and a generated save, a child process performs the same save under RLIMIT_FSIZE=k for EVERY byte position k of the new file (all positions when the file is <= 600 bytes, else 10 sampled ones incl. the ends), once as a failing write (SIGXFSZ ignored) and once as a process killed in the middle of the write; oracle: afterwards the settings file holds exactly the complete previous or the complete new contents; every (save, k) pair is an evaluation; non-trivial = a previous file existed"})
+	vk.Main(t, vk.Spec[crashCase]{ID: "C19", Facet: "crash", Quick: 30, Thorough: 160, Gen: genCrash, Check: checkCrash,
+		Rule: "for a generated previous settings file and a generated save, a child process performs the same save under RLIMIT_FSIZE=k for EVERY byte position k of the new file (all positions when the file is <= 320 bytes, else ~35 positions: a stride over the whole file, 6 drawn ones and the ends), once as a failing write (SIGXFSZ ignored) and once as a process killed in the middle of the write; oracle: afterwards the settings file holds exactly the complete previous or the complete new contents; every (save, k) pair is an evaluation; non-trivial = a previous file existed"})
 }
 
 // ---- facet concurrent: simultaneous saves and deletes ----
